@@ -6,6 +6,7 @@ package main
 //	tree rp   gcetcbendorsement/cmd.MakeRoot (Find mode, EnableTraverseRunHooks)
 //	tree rs   the same with the wiring of the shipped RootCmd (cmd/root.go init: --auth_token, --timeout, TraverseChildren)
 //	tree np   testing/nonprod root (cmd.MakeApp: endorse / bootstrap / rotate / wipeout)
+//	tree ap   cmd.MakeApp over components without flags of their own (the tree of streams c06cli / c15cli / argvend)
 //
 // A fresh tree is built for every argv (the shipped binaries execute once per process).  Every command's hooks and
 // Run(E) are replaced by recorders, every flag's Value is wrapped by a recorder of its Set calls (Bool flags still
@@ -28,7 +29,9 @@ import (
 	"strings"
 	"time"
 
+	rcmd "github.com/google/gce-tcb-verifier/cmd"
 	gcmd "github.com/google/gce-tcb-verifier/gcetcbendorsement/cmd"
+	"github.com/google/gce-tcb-verifier/storage/local"
 	nonprodcli "github.com/google/gce-tcb-verifier/testing/nonprod"
 	"github.com/spf13/cobra"
 	"github.com/spf13/pflag"
@@ -107,6 +110,11 @@ func argvTree(tree string) *cobra.Command {
 		return root
 	case "np":
 		return nonprodcli.VerifNewRootCmd()
+	case "ap":
+		// cmd.MakeApp over components that define no flags: the tree streams c06cli / c15cli / argvend run `endorse` on
+		pc := func() *rcmd.PartialComponent { return &rcmd.PartialComponent{} }
+		return rcmd.MakeApp(context.Background(), &rcmd.AppComponents{Global: pc(), Endorse: pc(), Bootstrap: pc(), Rotate: pc(), Wipeout: pc(),
+			SignatureRandom: &Rng{s: 4}, Storage: &local.StorageClient{}})
 	}
 	panic("argv: unknown tree " + tree)
 }
@@ -392,7 +400,7 @@ func argvRoundTrip(c *Ctx, tree string, ci argvCmdInfo, occs [][2]string, pos []
 
 func runArgv(c *Ctx) {
 	defer func(v bool) { cobra.EnableTraverseRunHooks = v }(cobra.EnableTraverseRunHooks)
-	trees := []string{"rp", "rs", "np"}
+	trees := []string{"rp", "rs", "np", "ap"}
 	for _, t := range trees {
 		c.Case("argv op=tree tree="+t, argvDump(t), true)
 	}
@@ -453,6 +461,11 @@ func runArgv(c *Ctx) {
 			{"tdx", "--ram_gib", "validate", "--help", "q", "-é"},
 			{"help", "sev", "--bogus", "completion", "bash", "--no-descriptions"},
 			{"__complete", "verify", "--sh", "", "-", "-test.x"},
+		},
+		"ap": {
+			{"endorse", "--uefi", "--dry_run", "false", "--dry_run=false", "--measurement_only"},
+			{"endorse", "--dry_run=maybe", "--clspec", "-5", "--", "--add_snp"},
+			{"--quiet", "endorse", "--key_dir", "--out_dir=o", "-h", "wipeout"},
 		},
 		"np": {
 			{"endorse", "--uefi", "f.fd", "--dry_run", "--", "--verbose=0"},
@@ -604,6 +617,10 @@ func runArgv(c *Ctx) {
 		{"rp", []string{"bogus"}},                                                // Find: unknown command
 		{"np", []string{"wipeout", "--force_prod_wipeout", "false"}},             // "false" is a positional
 		{"np", []string{"endorse", "-test.v", "--uefi=f.fd"}},                    // -test.* is skipped by pflag
+		{"ap", []string{"endorse", "--uefi", "fw.fd", "--add_snp", "--dry_run", "false"}}, // C15_argv_cli_dry_run_false_is_dry
+		{"ap", []string{"--dry_run=true", "endorse"}},                            // a Bool flag with `=` in front of the command word
+		{"ap", []string{"--dry_run", "endorse"}},                                 // bare: refused
+		{"np", []string{"endorse", "--measurement_only", "false"}},
 	}
 	for _, o := range obs {
 		argvCase(c, o.tree, o.argv, "observation")
